@@ -16,8 +16,11 @@
              "send" (the server's fa-th send raises; send 0 is the response start, so on WSGI,
              where start_response is not made to fail, fa >= 1 is the (fa-1)-th body block) |
              "render" (rendering the body raises - unserialisable media, a raising media handler
-             or render_body() itself - before anything was sent; the default error handler then
-             re-fills the response, see Eff)
+             or render_body() itself - before anything was sent; an error handler then re-fills
+             the response and it is rendered once more; fa = 1: only the first rendering raises,
+             fa = 2: the second one raises too; see Eff)
+     err     length of the error document an error handler put into the response, -1 = none
+             (always -1 in a case as the application fills it in; set by Eff)
 
    The emission is a state machine whose steps are the framework's emission steps, so that a
    fault falls *between any two* of them.  `ev` is the server-visible event sequence:
@@ -51,6 +54,7 @@ Bodiless(c)       == c.method = "HEAD" \/ StatusBodiless(c)
 
 (* documented precedence text > data > media > stream; an SSE emitter supersedes them (ASGI) *)
 Chosen(c) == IF IsAsgi(c) /\ c.sse >= 0 THEN "sse"
+             ELSE IF c.err >= 0   THEN "err"      \* the handler's document; text/data/media were reset
              ELSE IF c.text >= 0  THEN "text"
              ELSE IF c.data >= 0  THEN "data"
              ELSE IF c.media >= 0 THEN "media"
@@ -58,22 +62,24 @@ Chosen(c) == IF IsAsgi(c) /\ c.sse >= 0 THEN "sse"
              ELSE "none"
 Streamed(c)      == Chosen(c) \in {"stream", "sse"}
 MediaRendered(c) == c.text < 0 /\ c.data < 0 /\ c.media >= 0      \* rendering ignores stream / sse
-RenderedLen(c)   == IF c.text >= 0 THEN c.text ELSE IF c.data >= 0 THEN c.data ELSE c.media   \* -1: nothing rendered
+RenderedLen(c)   == IF c.err >= 0 THEN c.err ELSE IF c.text >= 0 THEN c.text ELSE IF c.data >= 0 THEN c.data ELSE c.media   \* -1: nothing rendered
 HasClose(c)      == c.stream \in {"iter", "file"}
 Faulty(c)        == c.fk # "none"
 
 (* ---- a render-phase fault ----
-   The exception is handled like any other: the default handler re-fills the response as a
-   500 with a framework-supplied Content-Type (an application's own type is replaced).
-   RenderPhaseFailureDropsBody (named deviation, a D-level detail the property does not speak
-   about): the error document the handler puts into the response is never rendered - the 500
-   goes out with an empty body - and the body sources the application had set are dropped.  What
-   happens to an application *stream* is left open by the design (`keep`): it may be dropped
-   (never begun, so never closed) or still be streamed under the 500; an SSE emitter stays. *)
-RenderPhaseFailureDropsBody == TRUE
-ErrorBodyLen == IF RenderPhaseFailureDropsBody THEN -1 ELSE 40
-Eff(c, keep) ==
-    [c EXCEPT !.code = 500, !.form = "int", !.text = -1, !.data = -1, !.media = ErrorBodyLen, !.ct = FALSE,
+   The exception is handled like any other: text, data and media of the response are reset and
+   the default handler re-fills it as a 500 with a framework-supplied Content-Type (an
+   application's own type is replaced) and its error document (ErrLen bytes, a D-level detail)
+   as the body.  The re-filled response is then rendered once more; `again` = that rendering
+   raises too, and the response goes out with an empty body.  Either way a rendered (possibly
+   empty) body exists, so a stream the application had set is never begun (hence never closed);
+   an SSE emitter stays.  `keep` is not used by the machine (it follows the code: FALSE); the trace
+   judge sets it when it *observes* the stream being iterated under the error status, which the
+   property does not forbid: the body is then a streamed one and carries no length obligation. *)
+ErrLen == 38                            \* {"title": "500 Internal Server Error"}
+Eff(c, again, keep) ==
+    [c EXCEPT !.code = 500, !.form = "int", !.text = -1, !.data = -1, !.media = -1, !.ct = FALSE,
+              !.err = IF again \/ keep THEN -1 ELSE ErrLen,
               !.stream = IF keep THEN c.stream ELSE "none", !.chunks = IF keep THEN c.chunks ELSE <<>>]
 RenderFaulted(c) == c.fk = "render"
 
@@ -96,7 +102,7 @@ HeadAdvertisesLength(c) ==
 StartCL(c) ==
     IF SeenBodiless(c)
     THEN (IF SeenStatusBodiless(c) THEN c.cl ELSE HeadAdvertisesLength(c))
-    ELSE CASE Chosen(c) \in {"text", "data", "media"} -> RenderedLen(c)
+    ELSE CASE Chosen(c) \in {"text", "data", "media", "err"} -> RenderedLen(c)
            [] Chosen(c) = "none"                     -> IF StaleLengthOnRenderFault /\ RenderFaulted(c) THEN c.cl ELSE 0
            [] OTHER                                  -> c.cl
 (* Content-Type class: "app" = the application's own, "fw" = supplied by the framework, "none" *)
@@ -193,10 +199,10 @@ Send(e, ok, bad) ==
         THEN (sendFailed' = TRUE /\ ev' = ev /\ pc' = bad)
         ELSE (sendFailed' = sendFailed /\ ev' = Append(ev, e) /\ pc' = ok))
 
-(* rendering the body raises; the error handler re-fills the response *)
+(* rendering the body raises; the error handler re-fills the response, which is rendered again *)
 RenderFails ==
     /\ pc = "render"
-    /\ \E keep \in (IF IsAsgi(c) /\ c.stream # "none" THEN BOOLEAN ELSE {FALSE}) : c' = Eff(c, keep)
+    /\ c' = Eff(c, c.fa >= 2, FALSE)
     /\ pc' = "start"
     /\ UNCHANGED <<c0, ev, k, hand, sends, begun, closes, raised, sendFailed>>
 
